@@ -1,8 +1,14 @@
 (* C19 — sign, negation and identity helpers agree with the integer value.
    Statements only; proofs live in proofs/SignProofs.v (and AddSubProofs.v for negation). *)
 From BigNum Require Import Base BaseLemmas AddSub SpecAddSub AddSubProofs Sign SpecSign SignProofs
-  Extracted InstAddSub.
+  Extracted InstAddSub InstSign.
 Open Scope Z_scope.
+
+(* The theorems about abs, abs_sub, signum, is_positive, is_negative, is_zero, cmp, to_biguint,
+   TryFrom and From<BigUint> are proved generically in the source-extracted arms / tests of those
+   functions and instantiated here at `Extracted.signs` (inst/InstSign.v). *)
+Local Notation SG := Extracted.signs.
+Local Notation gok := sign_params_ok.
 
 (** -x is the additive inverse (value, canonical form, and x + (-x) = 0 through the real adder). *)
 Theorem C19_neg : forall x, icanon x -> ineg x = ienc (spec_neg (ival x)).
@@ -13,20 +19,20 @@ Theorem C19_neg_inverse : forall x, icanon x -> iadd addsub x (ineg x) = Ret (ie
 Proof. intros; apply ineg_additive_inverse; auto using addsub_params_ok. Qed.
 Print Assumptions C19_neg_inverse.
 
-Theorem C19_abs : forall x, icanon x -> iabs x = ienc (spec_abs (ival x)).
-Proof. intros; apply iabs_spec; auto. Qed.
+Theorem C19_abs : forall x, icanon x -> iabs SG x = ienc (spec_abs (ival x)).
+Proof. intros; apply iabs_spec; auto using gok. Qed.
 Print Assumptions C19_abs.
 
-Theorem C19_signum : forall x, icanon x -> isignum x = ienc (spec_signum (ival x)).
-Proof. intros; apply isignum_spec; auto. Qed.
+Theorem C19_signum : forall x, icanon x -> isignum SG x = ienc (spec_signum (ival x)).
+Proof. intros; apply isignum_spec; auto using gok. Qed.
 Print Assumptions C19_signum.
 
-Theorem C19_is_positive : forall x, icanon x -> is_positive x = spec_is_positive (ival x).
-Proof. intros; apply is_positive_spec; auto. Qed.
+Theorem C19_is_positive : forall x, icanon x -> is_positive SG x = spec_is_positive (ival x).
+Proof. intros; apply is_positive_spec; auto using gok. Qed.
 Print Assumptions C19_is_positive.
 
-Theorem C19_is_negative : forall x, icanon x -> is_negative x = spec_is_negative (ival x).
-Proof. intros; apply is_negative_spec; auto. Qed.
+Theorem C19_is_negative : forall x, icanon x -> is_negative SG x = spec_is_negative (ival x).
+Proof. intros; apply is_negative_spec; auto using gok. Qed.
 Print Assumptions C19_is_negative.
 
 Theorem C19_sign : forall x, icanon x -> isign x = spec_sign (ival x).
@@ -38,13 +44,13 @@ Proof. intros; apply imagnitude_spec; auto. Qed.
 Print Assumptions C19_magnitude.
 
 (** Ord for BigInt (used by abs_sub) is the numeric order. *)
-Theorem C19_cmp : forall x y, icanon x -> icanon y -> icmp x y = spec_icmp (ival x) (ival y).
-Proof. intros; apply icmp_spec; auto. Qed.
+Theorem C19_cmp : forall x y, icanon x -> icanon y -> icmp SG x y = spec_icmp (ival x) (ival y).
+Proof. intros; apply icmp_spec; auto using gok. Qed.
 Print Assumptions C19_cmp.
 
 Theorem C19_abs_sub : forall x y, icanon x -> icanon y ->
-  abs_sub addsub x y = omap ienc (spec_abs_sub (ival x) (ival y)).
-Proof. intros; apply abs_sub_spec; auto using addsub_params_ok. Qed.
+  abs_sub SG addsub x y = omap ienc (spec_abs_sub (ival x) (ival y)).
+Proof. intros; apply abs_sub_spec; auto using addsub_params_ok, gok. Qed.
 Print Assumptions C19_abs_sub.
 
 (** from_biguint on every (Sign, canonical magnitude) pair, consistent or not: the value is
@@ -85,24 +91,29 @@ Theorem C19_assign_from_slice : forall x s w, Forall word w ->
 Proof. intros; apply i_assign_from_slice_spec; auto. Qed.
 Print Assumptions C19_assign_from_slice.
 
-(** to_biguint / ToBigUint / TryFrom<BigInt> succeed exactly for the non-negative values;
+(** to_biguint SG / ToBigUint / TryFrom<BigInt> succeed exactly for the non-negative values;
     to_bigint always succeeds. *)
 Theorem C19_to_biguint : forall x, icanon x ->
-  to_biguint x = option_map enc (spec_to_biguint (ival x)).
-Proof. intros; apply to_biguint_spec; auto. Qed.
+  to_biguint SG x = option_map enc (spec_to_biguint (ival x)).
+Proof. intros; apply to_biguint_spec; auto using gok. Qed.
 Print Assumptions C19_to_biguint.
 
+Theorem C19_to_biguint_trait : forall x, icanon x ->
+  to_biguint_trait SG x = option_map enc (spec_to_biguint (ival x)).
+Proof. intros; apply to_biguint_trait_spec; auto using gok. Qed.
+Print Assumptions C19_to_biguint_trait.
+
 Theorem C19_try_into_biguint : forall x, icanon x ->
-  try_into_biguint x = option_map enc (spec_to_biguint (ival x)).
-Proof. intros; apply try_into_biguint_spec; auto. Qed.
+  try_into_biguint SG x = option_map enc (spec_to_biguint (ival x)).
+Proof. intros; apply try_into_biguint_spec; auto using gok. Qed.
 Print Assumptions C19_try_into_biguint.
 
 Theorem C19_to_bigint : forall m x, canon m -> icanon x ->
-  u_to_bigint m = Some (ienc (val m)) /\ i_to_bigint x = Some (ienc (ival x)) /\
-  u_to_biguint m = Some (enc (val m)) /\ ifrom_u m = ienc (val m).
+  u_to_bigint SG m = Some (ienc (val m)) /\ i_to_bigint x = Some (ienc (ival x)) /\
+  u_to_biguint m = Some (enc (val m)) /\ ifrom_u SG m = ienc (val m).
 Proof.
-  intros; split; [apply u_to_bigint_spec; auto|]. split; [apply i_to_bigint_spec; auto|].
-  split; [apply u_to_biguint_spec; auto|apply ifrom_u_spec; auto].
+  intros; split; [apply u_to_bigint_spec; auto using gok|]. split; [apply i_to_bigint_spec; auto|].
+  split; [apply u_to_biguint_spec; auto|apply ifrom_u_spec; auto using gok].
 Qed.
 Print Assumptions C19_to_bigint.
 
@@ -115,10 +126,10 @@ Print Assumptions C19_identities.
 
 Theorem C19_is_zero_one : forall m x, canon m -> icanon x ->
   uis_zero m = spec_is_zero (val m) /\ uis_one m = spec_is_one (val m) /\
-  iis_zero x = spec_is_zero (ival x) /\ iis_one x = spec_is_one (ival x).
+  iis_zero SG x = spec_is_zero (ival x) /\ iis_one x = spec_is_one (ival x).
 Proof.
   intros; split; [apply uis_zero_spec; auto|]. split; [apply uis_one_spec; auto|].
-  split; [apply iis_zero_spec; auto|apply iis_one_spec; auto].
+  split; [apply iis_zero_spec; auto using gok|apply iis_one_spec; auto].
 Qed.
 Print Assumptions C19_is_zero_one.
 
@@ -135,9 +146,9 @@ Print Assumptions C19_sign_mul.
 (* Non-vacuity: canonical multi-digit values of both signs exist and the helpers act on them. *)
 Example C19_nonvacuous :
   canonb [5; B - 1] = true /\
-  iabs (mkint Minus [5; B - 1]) = mkint Plus [5; B - 1] /\
-  abs_sub addsub (mkint Plus [5; B - 1]) (mkint Minus [B - 1]) = Ret (mkint Plus [4; 0; 1]) /\
-  abs_sub addsub (mkint Minus [5; B - 1]) (mkint Minus [B - 1]) = Ret (mkint NoSign []) /\
+  iabs SG (mkint Minus [5; B - 1]) = mkint Plus [5; B - 1] /\
+  abs_sub SG addsub (mkint Plus [5; B - 1]) (mkint Minus [B - 1]) = Ret (mkint Plus [4; 0; 1]) /\
+  abs_sub SG addsub (mkint Minus [5; B - 1]) (mkint Minus [B - 1]) = Ret (mkint NoSign []) /\
   i_from_slice Minus [7; 0; 0; 1; 0; 0] = mkint Minus [7; 4294967296].
 Proof. repeat split; vm_compute; reflexivity. Qed.
 
